@@ -49,7 +49,7 @@ func TestVerif_C11_Ownership(t *testing.T) { verifOwnership(t, "C11") }
 
 func verifOwnership(t *testing.T, prop string) {
 	rec := stats.Get(prop, "ownership")
-	rec.Rule("rapid history of 3..7 calls on 1..3 AEADs built from ONE Block with different (nonce size, tag size), all kept alive: Seal, Open, Open of a forged message; message size from {0..300, 32..70 KiB, occasionally about 1 MiB}; dst from {nil, 3-byte prefix without room, empty with spare capacity between the output size and 4 MiB, exactly enough room, output room directly before / directly after the input in one arena}; now and then one AEAD is dropped and two garbage collections run while the Block and its other AEADs stay in use. After every call: result = dst || reference output (an AEAD keeps the parameters it was built with); every buffer the caller handed in or received EARLIER and did not pass now is byte-identical; the result does not overlap any such buffer; then the caller scribbles on the result. Non-trivial: a call after a rejected Open, or with a sibling AEAD alive, or of 32 KiB and more; distinct by history.")
+	rec.Rule("rapid history of 3..7 calls on 1..3 AEADs built from ONE Block with different (nonce size, tag size), all kept alive: Seal, Open, Open of a forged message; message size from {0..300, 32..70 KiB, occasionally about 1 MiB}; dst from {nil, 3-byte prefix without room, empty with spare capacity between the output size and 4 MiB, exactly enough room, output room directly before / directly after the input in one arena, the record idiom header||body in one buffer with dst = aad = the header and the body processed in place}; now and then one AEAD is dropped and two garbage collections run while the Block and its other AEADs stay in use. After every call: result = dst || reference output (an AEAD keeps the parameters it was built with); every buffer the caller handed in or received EARLIER and did not pass now is byte-identical; the result does not overlap any such buffer; then the caller scribbles on the result. Non-trivial: a call after a rejected Open, or with a sibling AEAD alive, or of 32 KiB and more; distinct by history.")
 	t.Cleanup(stats.FlushAll)
 	rapid.Check(t, func(t *rapid.T) {
 		r := gen.Rand(t, "seed")
@@ -148,8 +148,16 @@ func verifOwnership(t *testing.T, prop string) {
 				need = n
 			}
 			var dst []byte
-			dcls := gen.Pick(t, "dst", "nil", "prefix", "empty-roomy", "empty-roomy", "exact", "adjacent-before-input", "adjacent-after-input")
+			dcls := gen.Pick(t, "dst", "nil", "prefix", "empty-roomy", "empty-roomy", "exact", "adjacent-before-input", "adjacent-after-input", "packet-in-place", "packet-in-place")
 			switch dcls {
+			case "packet-in-place":
+				// the record idiom: header || body [|| tag] in ONE buffer, processed in place with the header both kept in front of the
+				// result (dst = pkt[:h]) and authenticated (aad = pkt[:h]): dst's existing bytes and the additional data are the same memory
+				h := len(aad)
+				pkt := make([]byte, h+len(input), h+len(input)+ai.tag)
+				copy(pkt, aad)
+				copy(pkt[h:], input)
+				dst, input, aad = pkt[:h], pkt[h:h+len(input)], pkt[:h:h]
 			case "adjacent-before-input":
 				// one arena: room for the output, then — without a gap — the input (legal: the regions touch but do not overlap)
 				arena := make([]byte, need+len(input))
